@@ -968,8 +968,19 @@ type rangeState struct {
 	mt    *types.Map
 }
 
+// rangeInit: the iterator remembers the map and owns a ghost "visited" set
+// (heap GV|<keysort>, indexed by a fresh iterator id), initially empty.
 func (fr *Frame) rangeInit(x *ssa.Range) {
-	fr.set(x, &Val{T: fr.vc.term(fr.val(x.X)), Typ: x.X.Type()})
+	vc := fr.vc
+	v := &Val{T: vc.term(fr.val(x.X)), Typ: x.X.Type()}
+	if mt, ok := x.X.Type().Underlying().(*types.Map); ok {
+		ks := vc.sortOf(mt.Key())
+		gv := vc.regHeap("GV|"+ks, "(Array Int (Array "+ks+" Bool))")
+		id := vc.S.FreshConst(fr.prefix+".iter", "Int")
+		fr.cur.Set(gv, sto(fr.cur.Get(gv), id, fmt.Sprintf("((as const (Array %s Bool)) false)", ks)))
+		v.Bind = []*Val{{T: id}}
+	}
+	fr.set(x, v)
 }
 
 func (fr *Frame) rangeNext(x *ssa.Next) {
@@ -987,14 +998,21 @@ func (fr *Frame) rangeNext(x *ssa.Next) {
 	mt := it.Typ.Underlying().(*types.Map)
 	d, vn := vc.mapNames(mt)
 	var k, v *Val
-	if _, inv := tup.At(1).Type().(*types.Basic); inv && tup.At(1).Type().(*types.Basic).Kind() == types.Invalid {
-		k = &Val{T: vc.S.FreshConst(fr.prefix+".next.k", vc.sortOf(mt.Key())), Typ: mt.Key()}
-	} else {
-		k = vc.fresh(fr.prefix+".next.k", mt.Key())
-	}
+	k = vc.fresh(fr.prefix+".next.k", mt.Key())
 	m := it.T
 	inDom := sel(sel(fr.cur.Get(d), m), k.T)
 	fr.assume(implies(okc, and(not(eq(m, "0")), inDom)))
+	if len(it.Bind) == 1 {
+		// each key is produced at most once; when the iteration ends every key still present was produced
+		ks := vc.sortOf(mt.Key())
+		gv := "GV|" + ks
+		id := it.Bind[0].T
+		vis := sel(fr.cur.Get(gv), id)
+		fr.assume(implies(okc, not(sel(vis, k.T))))
+		qk := vc.S.Fresh("k")
+		fr.assume(implies(not(okc), fmt.Sprintf("(forall ((%s %s)) (! (=> (select (select %s %s) %s) (select %s %s)) :pattern ((select %s %s))))", q(qk), ks, fr.cur.Get(d), m, q(qk), vis, q(qk), vis, q(qk))))
+		fr.cur.Set(gv, sto(fr.cur.Get(gv), id, ite(okc, sto(vis, k.T, "true"), vis)))
+	}
 	val := sel(sel(fr.cur.Get(vn), m), k.T)
 	vt := mt.Elem()
 	vv := &Val{T: vc.S.Define(fr.prefix+".next.v", vc.sortOf(vt), val), Typ: vt}
